@@ -5,6 +5,7 @@ import (
 	"io"
 	"net"
 	"os"
+	"os/signal"
 	"syscall"
 	"time"
 
@@ -283,7 +284,12 @@ func runTermMon(c *harness.Ctx) {
 	t := c.T
 	c.Info["part"] = "termmon"
 	c.S.ArmSelect()
-	m := &termMonitor{sigChan: make(chan os.Signal), handlerChan: make(chan int)}
+	// the monitor as obfs4proxy builds it (channel capacities are part of its
+	// behaviour); signals are then offered on its channel by the simulation.
+	// newTermMonitor also registers for real SIGINT/SIGTERM (none arrives) and,
+	// on Linux, asks for SIGTERM on parent death.
+	m := newTermMonitor()
+	c.AtEnd(func() { signal.Stop(m.sigChan) })
 	realHandlers := t.Draw("realhandlers", 2) == 1
 	if realHandlers {
 		termMon = m // the package-level monitor the real handlers report to
@@ -291,7 +297,8 @@ func runTermMon(c *harness.Ctx) {
 	}
 	c.Info["real_handlers"] = realHandlers
 	nHandlers := t.Draw("nhandlers", 5)
-	active := 0       // started-but-unfinished, as the handlers themselves see it
+	active := 0 // started-but-unfinished, as the handlers themselves see it
+	inWork := 0 // real handlers that are inside their (stub) transport call right now
 	var mainState string
 	var firstSig, secondSig os.Signal
 	mainDone := false
@@ -319,7 +326,7 @@ func runTermMon(c *harness.Ctx) {
 				case 0: // bridge side: the transport handshake fails (after a while)
 					l := c.Net.NewLink(fmt.Sprintf("peer%d", i), fmt.Sprintf("h%d", i))
 					c.Feature("real-serverHandler-failed-handshake")
-					serverHandler(&stubServerFactory{c: c, delay: time.Duration(work) * time.Millisecond}, l.B, nil)
+					serverHandler(&stubServerFactory{c: c, delay: time.Duration(work) * time.Millisecond, inWork: &inWork}, l.B, nil)
 				case 1: // client side: tor sends garbage instead of a SOCKS5 request
 					l := c.Net.NewLink(fmt.Sprintf("tor%d", i), fmt.Sprintf("h%d", i))
 					c.S.Go(fmt.Sprintf("tor%d/garbage", i), func() {
@@ -335,7 +342,7 @@ func runTermMon(c *harness.Ctx) {
 					clientHandler(&stubClientFactory{c: c}, l.B, nil)
 				default: // client side: SOCKS5 ok, (stub) transport dial ok or refused, then a short relay
 					l := c.Net.NewLink(fmt.Sprintf("tor%d", i), fmt.Sprintf("h%d", i))
-					cf := &stubClientFactory{c: c, fail: kind == 3, work: time.Duration(work) * time.Millisecond, idx: i}
+					cf := &stubClientFactory{c: c, fail: kind == 3, work: time.Duration(work) * time.Millisecond, idx: i, inWork: &inWork}
 					c.S.Go(fmt.Sprintf("tor%d/socks", i), func() {
 						l.A.Write([]byte{5, 1, 0})
 						buf := make([]byte, 64)
@@ -389,7 +396,9 @@ func runTermMon(c *harness.Ctx) {
 		}
 	})
 	var waitTrueAt, waitTrueRet time.Duration
-	activeAtReturn := -1
+	activeAtReturn, inWorkAtReturn := -1, 0
+	betweenMs := []int{0, 0, 1, 20, 100}[t.Draw("between-waits", 5)]
+	c.Info["ms_between_waits"] = betweenMs
 	c.S.Go("main/main", func() {
 		mainState = "wait(false)"
 		firstSig = m.wait(false)
@@ -397,11 +406,15 @@ func runTermMon(c *harness.Ctx) {
 			mainState, mainDone = "exited-on-sigterm", true
 			return
 		}
+		// main() closes its listeners between the two waits
+		mainState = "closing-listeners"
+		c.S.Sleep(time.Duration(betweenMs) * time.Millisecond)
 		mainState = "wait(true)"
 		waitTrueAt = c.S.Now()
 		secondSig = m.wait(true)
 		waitTrueRet = c.S.Now()
 		activeAtReturn = active
+		inWorkAtReturn = inWork
 		mainState, mainDone = "exited", true
 	})
 	stop := c.S.Run(func() bool { return mainDone }, time.Hour)
@@ -421,7 +434,10 @@ func runTermMon(c *harness.Ctx) {
 		}
 	default:
 		if secondSig == syscall.SIGTERM && sigSent < 2 && activeAtReturn > 0 && !realHandlers {
-			c.Violate("C19/shutdown-with-active-handler", "wait(true) returned while %d handler(s) were still active and no second signal had been sent", activeAtReturn)
+			c.Violate("C19/shutdown-with-active-handler", "wait(true) returned while %d handler(s) were still active (their start had been reported, their finish not) and no second signal had been sent", activeAtReturn)
+		}
+		if secondSig == syscall.SIGTERM && sigSent < 2 && inWorkAtReturn > 0 && realHandlers {
+			c.Violate("C19/shutdown-with-active-handler", "wait(true) returned while %d real connection handler(s) were inside their transport call (past onHandlerStart, before onHandlerFinish) and no second signal had been sent", inWorkAtReturn)
 		}
 		if sigSent < 2 && activeAtReturn == 0 && nHandlers == 0 && waitTrueRet != waitTrueAt {
 			c.Violate("C19/idle-shutdown-delayed", "no handler was ever active, yet wait(true) took %v", waitTrueRet-waitTrueAt)
@@ -460,14 +476,21 @@ func (stubTransport) ServerFactory(string, *pt.Args) (base.ServerFactory, error)
 
 // stubServerFactory fails every handshake after a delay (as obfs4 does with probers).
 type stubServerFactory struct {
-	c     *harness.Ctx
-	delay time.Duration
+	c      *harness.Ctx
+	delay  time.Duration
+	inWork *int
 }
 
 func (f *stubServerFactory) Transport() base.Transport { return stubTransport{} }
 func (f *stubServerFactory) Args() *pt.Args            { return &pt.Args{} }
 func (f *stubServerFactory) WrapConn(conn net.Conn) (net.Conn, error) {
+	if f.inWork != nil {
+		*f.inWork++
+	}
 	f.c.S.Sleep(f.delay)
+	if f.inWork != nil {
+		*f.inWork--
+	}
 	return nil, fmt.Errorf("stub: handshake failed")
 }
 
@@ -478,11 +501,20 @@ type stubClientFactory struct {
 	fail bool
 	work time.Duration
 	idx  int
+	// inWork, if set, counts handlers that are inside Dial (which takes a
+	// while: the handler is demonstrably between its start and finish reports)
+	inWork *int
 }
 
 func (f *stubClientFactory) Transport() base.Transport        { return stubTransport{} }
 func (f *stubClientFactory) ParseArgs(*pt.Args) (any, error) { return nil, nil }
 func (f *stubClientFactory) Dial(network, addr string, dialFn base.DialFunc, args any) (net.Conn, error) {
+	if f.inWork != nil {
+		// connecting takes a moment
+		*f.inWork++
+		f.c.S.Sleep(f.work / 2)
+		*f.inWork--
+	}
 	if f.fail {
 		return nil, &net.OpError{Op: "dial", Net: "tcp", Err: syscall.ECONNREFUSED}
 	}
